@@ -113,7 +113,19 @@ func genKeysPlan(r *rand.Rand) *ProxyPlan {
 	rs := PRes{Host: "origin.test", Path: "/", Wild: true, Size: 64, CC: []string{"max-age=3600"}, ETag: "strong"}
 	p.Res = []PRes{rs}
 	var a, b string
-	if r.IntN(3) == 0 {
+	if r.IntN(25) == 0 {
+		// very long targets that agree for a thousand and more bytes and differ only at the end
+		// (whatever the key is built from, all of the target has to go into it)
+		pre := "/" + strings.Repeat("seg"+itoa(r.IntN(10))+"/", 260+r.IntN(100))
+		tails := [][2]string{{"x", "y"}, {"x", "x/"}, {"x?q=1", "x?q=2"}, {"x?q=1", "x"}, {"x", "x%2Fy"}}
+		t := tails[r.IntN(len(tails))]
+		if r.IntN(2) == 0 {
+			// the difference sits in a long query instead
+			pre = "/p?" + strings.Repeat("k=v&", 300+r.IntN(100))
+			t = [2]string{"z=1", "z=2"}
+		}
+		a, b = pre+t[0], pre+t[1]
+	} else if r.IntN(3) == 0 {
 		a, b = "/k|m?n", "/k?m|n"
 		if r.IntN(2) == 0 {
 			a, b = genTarget(r, 1+r.IntN(4)), genTarget(r, 1+r.IntN(4))
